@@ -223,7 +223,7 @@ func (c *Ctx) useSiteConstants() map[string]string {
 		})
 	}
 	// divisors and shifts inside the readers / encoders (constant operands of the arithmetic that defines the layout)
-	for _, fnm := range []string{"(*Segment).getDocStoredOffsets", "getChunkSize", "encodeFreqHasLocs", "decodeFreqHasLocs", "fSTValEncode1Hit", "fSTValDecode1Hit", "under32Bits", "numUvarintBytes"} {
+	for _, fnm := range []string{"(*Segment).getDocStoredOffsets", "getChunkSize", "encodeFreqHasLocs", "decodeFreqHasLocs", "fSTValEncode1Hit", "fSTValDecode1Hit", "under32Bits"} {
 		fn, ok := c.byName[fnm]
 		if !ok || fn.Blocks == nil {
 			out[fnm+": body"] = "missing"
@@ -243,14 +243,33 @@ func (c *Ctx) useSiteConstants() map[string]string {
 			}
 		}
 		var ks []string
-		for _, b := range fn.Blocks {
+		scan := []*ssa.Function{fn}
+		if fnm == "(*Segment).getDocStoredOffsets" {
+			// the block-selecting division may sit in a small helper of the reader
+			for _, sc := range staticCallees(fn) {
+				if c.inRoot(sc) && sc.Blocks != nil {
+					scan = append(scan, sc)
+				}
+			}
+		}
+		var scanBlocks []*ssa.BasicBlock
+		for _, f := range scan {
+			scanBlocks = append(scanBlocks, f.Blocks...)
+		}
+		for _, b := range scanBlocks {
 			for _, ins := range b.Instrs {
 				bin, ok := ins.(*ssa.BinOp)
 				if !ok {
 					continue
 				}
-				if fnm == "(*Segment).getDocStoredOffsets" && bin.Op.String() != "/" {
-					continue // only the block-selecting divisor is format; look-ahead sizes are not
+				if fnm == "(*Segment).getDocStoredOffsets" {
+					if bin.Op.String() != "/" {
+						continue // only the block-selecting divisor is format; look-ahead sizes are not
+					}
+					if k, ok := bin.Y.(*ssa.Const); ok && k.Value != nil && k.Value.Kind() == constant.Int {
+						ks = append(ks, "/"+k.Value.ExactString())
+					}
+					continue
 				}
 				for oi, op := range []ssa.Value{bin.X, bin.Y} {
 					if k, ok := op.(*ssa.Const); ok && k.Value != nil && k.Value.Kind() == constant.Int {
@@ -811,7 +830,7 @@ type offVal struct {
 }
 
 func evalOff(v ssa.Value, env map[*ssa.Parameter]offVal, depth int) offVal {
-	if depth > 12 {
+	if depth > 48 {
 		return offVal{}
 	}
 	switch x := v.(type) {
@@ -828,6 +847,34 @@ func evalOff(v ssa.Value, env map[*ssa.Parameter]offVal, depth int) offVal {
 	case *ssa.Call:
 		if sc := x.Call.StaticCallee(); sc != nil && sc.Name() == "Len" && sc.Signature.Recv() != nil && isNamed(sc.Signature.Recv().Type(), "github.com/blugelabs/bluge_segment_api", "Data") {
 			return offVal{true, 0, true}
+		}
+	case *ssa.Field:
+		// field i of a struct of offsets computed by an in-package helper
+		if call, ok := x.X.(*ssa.Call); ok {
+			return evalCalleeStructField(call, x.Field, env, depth+1)
+		}
+	case *ssa.UnOp:
+		if x.Op != token.MUL {
+			break
+		}
+		fa, ok := x.X.(*ssa.FieldAddr)
+		if !ok {
+			break
+		}
+		al, ok := fa.X.(*ssa.Alloc)
+		if !ok {
+			break
+		}
+		// a local struct: the value stored to that field, or the struct a helper returned
+		if st := structFieldStore(al, fa.Field); st != nil {
+			return evalOff(st.Val, env, depth+1)
+		}
+		for _, ref := range *al.Referrers() {
+			if st, ok := ref.(*ssa.Store); ok && st.Addr == ssa.Value(al) {
+				if call, ok := st.Val.(*ssa.Call); ok {
+					return evalCalleeStructField(call, fa.Field, env, depth+1)
+				}
+			}
 		}
 	case *ssa.BinOp:
 		a := evalOff(x.X, env, depth+1)
@@ -846,6 +893,61 @@ func evalOff(v ssa.Value, env map[*ssa.Parameter]offVal, depth int) offVal {
 				return offVal{}
 			}
 			return offVal{a.rel, a.v - b.v, true}
+		}
+	}
+	return offVal{}
+}
+
+// structFieldStore: the single store into field i of the local struct al.
+func structFieldStore(al *ssa.Alloc, field int) *ssa.Store {
+	var out *ssa.Store
+	n := 0
+	for _, ref := range *al.Referrers() {
+		fa, ok := ref.(*ssa.FieldAddr)
+		if !ok || fa.Field != field {
+			continue
+		}
+		for _, r2 := range *fa.Referrers() {
+			if st, ok := r2.(*ssa.Store); ok && st.Addr == ssa.Value(fa) {
+				out = st
+				n++
+			}
+		}
+	}
+	if n == 1 {
+		return out
+	}
+	return nil
+}
+
+// evalCalleeStructField: field i of the struct an in-package helper returns,
+// evaluated with the helper's parameters bound to the call's arguments.
+func evalCalleeStructField(call *ssa.Call, field int, env map[*ssa.Parameter]offVal, depth int) offVal {
+	sc := call.Call.StaticCallee()
+	if sc == nil || sc.Blocks == nil || depth > 48 {
+		return offVal{}
+	}
+	ne := map[*ssa.Parameter]offVal{}
+	for i, p := range sc.Params {
+		if i < len(call.Call.Args) {
+			ne[p] = evalOff(call.Call.Args[i], env, depth+1)
+		}
+	}
+	for _, b := range sc.Blocks {
+		ret, ok := b.Instrs[len(b.Instrs)-1].(*ssa.Return)
+		if !ok || len(ret.Results) != 1 {
+			continue
+		}
+		ld, ok := ret.Results[0].(*ssa.UnOp)
+		if !ok || ld.Op != token.MUL {
+			continue
+		}
+		al, ok := ld.X.(*ssa.Alloc)
+		if !ok {
+			continue
+		}
+		if st := structFieldStore(al, field); st != nil {
+			return evalOff(st.Val, ne, depth+1)
 		}
 	}
 	return offVal{}
